@@ -1,6 +1,6 @@
 use std::io::{self, Write};
 
-use super::{write_delimiter, write_other_fields, write_value_field};
+use super::{write_delimiter, write_idx_field, write_other_fields, write_value_field};
 use crate::header::record::value::{
     Map,
     map::{Contig, contig::tag},
@@ -25,6 +25,7 @@ where
         write_value_field(writer, tag::URL, url)?;
     }
 
+    write_idx_field(writer, contig.idx())?;
     write_other_fields(writer, contig.other_fields())?;
 
     Ok(())
